@@ -31,7 +31,7 @@ BINOPS = {'ADD': '+', 'SUB': '-', 'MUL': '*', 'DIV': '/', 'REM': '%', 'OR': '|',
 UNOPS = {'NEG': '-', 'INV': '~'}
 
 
-def build_module(tree, const_value=None, fprel_pad=0):
+def build_module(tree, const_value=None, fprel_pad=0, reg_as_ptr=None):
     """tree: (name, kids). Returns an ir.Module with function `f` whose forest contains the tree."""
     from ppci import ir
     tys = {str(t).upper(): t for t in ir.value_types}
@@ -66,7 +66,7 @@ def build_module(tree, const_value=None, fprel_pad=0):
             return c
         op, ty = mm.group(1), tys[mm.group(2)]
         if op == 'REG':
-            p = ir.Parameter(nm('a'), ty)
+            p = ir.Parameter(nm('a'), ir.ptr if reg_as_ptr and mm.group(2) in reg_as_ptr else ty)
             params.append(p)
             return p
         if op == 'CONST':
@@ -206,4 +206,74 @@ def pressure_module(n, nargs=0, with_call=True):
         acc = ir.Binop(acc, '+', v, 's%d' % i, ty)
         b.add_instruction(acc)
     b.add_instruction(ir.Return(acc))
+    return m
+
+
+def ptr_module(int_types, ptr_bits):
+    """pointer <-> integer traffic: one function per case so that failures are isolated"""
+    from ppci import ir
+    m = ir.Module('ptrs')
+    g = ir.Variable('pg', ir.Binding.GLOBAL, 32, 8)
+    m.add_variable(g)
+    sw = [t for t in int_types if t.bits == ptr_bits and t.signed][0]
+    uw = [t for t in int_types if t.bits == ptr_bits and not t.signed][0]
+
+    def fn(name, ret, params):
+        f = ir.Function(name, ir.Binding.GLOBAL, ret) if ret is not None else ir.Procedure(name, ir.Binding.GLOBAL)
+        m.add_function(f)
+        ps = []
+        for i, t in enumerate(params):
+            p = ir.Parameter('%s_a%d' % (name, i), t)
+            f.add_parameter(p)
+            ps.append(p)
+        b = ir.Block(name + '_entry')
+        f.add_block(b)
+        f.entry = b
+        return f, b, ps
+
+    def em(b, ins):
+        b.add_instruction(ins)
+        return ins
+    for t in int_types:
+        n = str(t)
+        f, b, (p,) = fn('p2i_' + n, t, [ir.ptr])
+        em(b, ir.Return(em(b, ir.Cast(p, 'c', t))))
+        f, b, (x,) = fn('i2p_' + n, ir.ptr, [t])
+        em(b, ir.Return(em(b, ir.Cast(x, 'c', ir.ptr))))
+        f, b, (p,) = fn('p2i_use_' + n, t, [ir.ptr])          # cast nested in an expression
+        c = em(b, ir.Cast(p, 'c', t))
+        k = em(b, ir.Const(3, 'k', t))
+        em(b, ir.Return(em(b, ir.Binop(c, '&', k, 'r', t))))
+    f, b, (p, q) = fn('pdiff', sw, [ir.ptr, ir.ptr])
+    a1, a2 = em(b, ir.Cast(p, 'x', sw)), em(b, ir.Cast(q, 'y', sw))
+    em(b, ir.Return(em(b, ir.Binop(a1, '-', a2, 'd', sw))))
+    f, b, (p, q) = fn('pdiff_ptr', ir.ptr, [ir.ptr, ir.ptr])   # subtraction in the pointer type itself
+    em(b, ir.Return(em(b, ir.Binop(p, '-', q, 'd', ir.ptr))))
+    for k, cond in enumerate(['<', '==', '>=', '<=', '!=', '>']):
+        f, b, (p, q) = fn('pcmp%d' % k, None, [ir.ptr, ir.ptr])
+        y, nn = ir.Block('pcmp%d_y' % k), ir.Block('pcmp%d_n' % k)
+        f.add_block(y)
+        f.add_block(nn)
+        em(b, ir.CJump(p, cond, q, y, nn))
+        em(y, ir.Exit())
+        em(nn, ir.Exit())
+    f, b, (p,) = fn('pmask', uw, [ir.ptr])
+    c = em(b, ir.Cast(p, 'c', uw))
+    k = em(b, ir.Const(3, 'k', uw))
+    em(b, ir.Return(em(b, ir.Binop(c, '&', k, 'r', uw))))
+    f, b, (p,) = fn('pstore_int', ir.ptr, [ir.ptr])            # pointer stored as integer, loaded back
+    al = em(b, ir.Alloc('slot', 16, 8))
+    ad = em(b, ir.AddressOf(al, 'ad'))
+    em(b, ir.Store(em(b, ir.Cast(p, 'c', uw)), ad))
+    ld = em(b, ir.Load(ad, 'ld', uw))
+    em(b, ir.Return(em(b, ir.Cast(ld, 'back', ir.ptr))))
+    f, b, (p,) = fn('pstore_ptr', sw, [ir.ptr])               # pointer stored as pointer, loaded as integer
+    em(b, ir.Store(p, g))
+    ld = em(b, ir.Load(g, 'ld', sw))
+    ldp = em(b, ir.Load(g, 'ldp', ir.ptr))
+    em(b, ir.Return(em(b, ir.Binop(ld, '+', em(b, ir.Cast(ldp, 'c', sw)), 'r', sw))))
+    f, b, _ = fn('fn2i', uw, [])
+    em(b, ir.Return(em(b, ir.Cast(m.functions[0], 'c', uw))))
+    f, b, _ = fn('glob2i', sw, [])
+    em(b, ir.Return(em(b, ir.Cast(g, 'c', sw))))
     return m
